@@ -9,6 +9,7 @@ import (
 	"time"
 
 	"bufio"
+	"encoding/binary"
 	"io"
 	"io/ioutil"
 )
@@ -79,7 +80,7 @@ func (con *Connection) DecryptedRead(b []byte) (int, error) {
 		if con.bufferedReader == nil {
 			con.bufferedReader = bufio.NewReader(con.connection)
 		}
-		decrypted, err := con.getDecrypter().Decrypt(con.bufferedReader)
+		decrypted, err := con.decryptFrame()
 		if err != nil {
 			if neterr, ok := err.(net.Error); ok && neterr.Timeout() {
 				// Ignore timeout error #77
@@ -100,6 +101,28 @@ func (con *Connection) DecryptedRead(b []byte) (int, error) {
 	}
 
 	return n, err
+}
+
+// decryptFrame waits until a whole frame has arrived and decrypts it. The bytes
+// of a frame which is not complete yet stay in the buffered reader, so that a
+// read time-out does not lose them, and a complete frame is handed out at once:
+// a frame of the maximum size may be the last one of a message.
+func (con *Connection) decryptFrame() (io.Reader, error) {
+	header, err := con.bufferedReader.Peek(2)
+	if err != nil {
+		return nil, err
+	}
+
+	n := 2 + int(binary.LittleEndian.Uint16(header)) + 16
+	frame, err := con.bufferedReader.Peek(n)
+	if err != nil {
+		return nil, err
+	}
+
+	decrypted, err := con.getDecrypter().Decrypt(bytes.NewReader(frame))
+	con.bufferedReader.Discard(n)
+
+	return decrypted, err
 }
 
 // drained reports whether a decrypted message has been read completely.
